@@ -129,6 +129,17 @@ def _cases(ctx, deep=False):
         if rng.random() < 0.3:
             cfg.update(fault_at=rng.randrange(50, 70), fault_mode=rng.choice(['driver', 'sender']))
         cases.append({'cfg': cfg, 'seed': rng.randrange(1 << 30), 'script': script})
+    # two unanswered requests with different patterns (two retry timers) on a radio-like link whose send_packet reports
+    # the link error from the SENDING thread after blocking 2 s (RadioDriver: out queue full): the retry that hits the
+    # fault holds the send lock while the other timer fires and waits for that lock; the error handler then runs in
+    # the first timer's thread with the second one blocked behind it (sender_fault_on: the n-th packet of the request port)
+    for nth in (1, 2, 3, 4, 5, 6):
+        for t2 in (0.2, 0.1):
+            for gap in (0.05, 0.15):
+                cases.append({'cfg': {'needs_resending': True, 'sender_fault_on': [14, nth]},
+                              'seed': rng.randrange(1 << 30),
+                              'script': [['sync_open'], ['sleep', 3.0], ['request', 7, 0.2], ['sleep', gap], ['request', 8, t2],
+                                         ['sleep', 4.0], ['close'], ['sleep', 0.5], ['reconnect']]})
     # a driver-thread link error that is pending around the moment connected is delivered: many schedules, so that the
     # error handler runs between SyncCrazyflie's connected handler and the wake-up of the thread blocked in open_link
     for k in range(12, 24):
